@@ -46,6 +46,14 @@ def reap_loop_ok(ctx, func, loop, what):
     ctx.check(rule, f'{F}: survivors get SIGTERM', bool(fb), F, f'reap-no-sigterm-fallback[{what}]', 'a child that survives terminate() is not signalled', where=loc(func, loop))
 
 
+def sigterm_handler(ih):
+    """the closure of install_handlers that is registered for SIGTERM (found by role, not by name)"""
+    for c in calls_in(ih.node):
+        if (dotted(c.func) or '') == 'signal.signal' and len(c.args) == 2 and 'SIGTERM' in norm(c.args[0]) and isinstance(c.args[1], ast.Name) and c.args[1].id in ih.nested:
+            return ih.nested[c.args[1].id]
+    return None
+
+
 def run(ctx):
     P = ctx.prog
     RS = P.cls('RemoteServer')
@@ -141,8 +149,9 @@ def run(ctx):
     ctx.check('R3', 'break_accept connects to the listening address', ok, 'RemoteServer.break_accept', 'break-accept-target', 'break_accept does not connect to the server\'s own address',
               where=loc(ba, ba.node))
     ih = RS.methods.get('install_handlers')
-    ctx.require(ih is not None and 'cleanup' in ih.nested, 'RemoteServer.install_handlers.cleanup not found')
-    cu = ih.nested['cleanup']
+    ctx.require(ih is not None, 'RemoteServer.install_handlers not found')
+    cu = sigterm_handler(ih)
+    ctx.require(cu is not None, 'RemoteServer.install_handlers: the closure installed for SIGTERM was not found')
     ctx.used(ih, cu)
     lp = [n for n in walk_local(cu.node) if isinstance(n, ast.For) and 'self.children' in norm(n.iter)]
     ok = bool(lp) and any((dotted(c.func) or '') == 'os.kill' and 'SIGTERM' in norm(c) for c in calls_in(lp[0]))
@@ -151,7 +160,7 @@ def run(ctx):
     ok = any('signal.signal(signal.SIGTERM, signal.SIG_DFL)' in c for c in calls) and any('os.kill(os.getpid(), signal.SIGTERM)' in c for c in calls)
     ctx.check('R3', 'SIGTERM handler re-raises the default action', ok, 'RemoteServer.install_handlers.<cleanup>', 'sigterm-not-reraised', 'after cleaning up the SIGTERM handler does not terminate the server',
               where=loc(cu, cu.node))
-    reg = any((dotted(c.func) or '') == 'signal.signal' and 'SIGTERM' in norm(c.args[0]) and is_name(c.args[1], 'cleanup') for c in calls_in(ih.node))
+    reg = any((dotted(c.func) or '') == 'signal.signal' and 'SIGTERM' in norm(c.args[0]) and is_name(c.args[1], cu.name) for c in calls_in(ih.node))
     ctx.check('R3', 'the SIGTERM handler is installed', reg, 'RemoteServer.install_handlers', 'sigterm-not-installed', 'install_handlers does not install the SIGTERM handler', where=loc(ih, ih.node))
     ctx.note('the SIGTERM handler iterates only over `children` (not `contexts`); checked by experiment to be benign (context helpers exit on EOF of their input pipe) - not armed')
 
